@@ -19,7 +19,9 @@ def parseScript (s : String) : Option (List Script) :=
         pure (a, b, [s!"k{a}_{j}".toUTF8.toList])
       | _ => none
 
-def handle (kind : String) (args : List String) (impl : String) : String :=
+def handle (kind0 : String) (args : List String) (impl : String) : String :=
+  -- c18.stepz: the processor has a compression section; SCAN is not affected by it
+  let kind := if kind0 == "c18.stepz" then "c18.step" else kind0
   match kind, args with
   | "c18.step", nh :: rep :: argHex =>
     match nh.toNat?, C10.parseValueStr rep, argHex.mapM parseHex with
